@@ -370,6 +370,7 @@ def run(ctx):
     streams.append(write_fault_stream(ctx, r))
     streams.append(many_stores_stream(ctx, r))
     streams.append(receiver_archive_stream(ctx, r))
+    streams.append(locale_stream(ctx, r))
 
     # the path a message takes in the server before it is stored: queue -> consumer task -> dispatch closure ->
     # to_thread(write_message).  server.main() in-process (harness/servermain.py), sessions ending at the same instant
@@ -514,6 +515,58 @@ def receiver_archive_stream(ctx, r):
                         ", and their contents are not the raw transfers"), "receiver-raw-archive/" + (
                         "count" if len(got) != len(expected) else "content"))
     return ra
+
+
+_LOCALE_CHILD = r"""
+import sys, os, json
+sys.path.insert(0, %(src)r)
+import logging; logging.disable(logging.CRITICAL)
+from senaite.astm import utils
+d = sys.argv[1]
+msgs = json.loads(sys.stdin.read())
+errs = []
+for m in msgs:
+    try:
+        utils.write_message(bytes.fromhex(m[1]) if m[0] == "b" else m[1], d)
+    except Exception as e:
+        errs.append(type(e).__name__)
+print(json.dumps(errs))
+"""
+
+
+def locale_stream(ctx, r):
+    """text is stored as UTF-8 whatever the locale of the process says: the store run in a child interpreter with a
+    legacy locale (LC_ALL=C / an ISO-8859-1 locale, UTF-8 mode off)"""
+    import subprocess
+    import sys
+    import json as _json
+    ls = Stream("legacy-locale")
+    src = os.path.join(os.environ.get("VERIF_REPO", "/repo"), "src")
+    for env_extra in ({"LC_ALL": "C", "LANG": "C", "PYTHONUTF8": "0", "PYTHONCOERCECLOCALE": "0"},
+                      {"LC_ALL": "en_US.ISO-8859-1", "LANG": "en_US.ISO-8859-1", "PYTHONUTF8": "0", "PYTHONCOERCECLOCALE": "0"},
+                      {"LC_ALL": "POSIX", "PYTHONUTF8": "0", "PYTHONCOERCECLOCALE": "0", "PYTHONIOENCODING": "latin-1"}):
+        tmp = tempfile.mkdtemp(prefix="astm-c16l-")
+        d = os.path.join(tmp, "out")
+        msgs = [["t", "caf\u00e9 \u00b5mol/L %d" % r.randrange(1000)], ["t", "plain %d" % r.randrange(1000)],
+                ["b", ("H|\\^&|\u00e9 %d" % r.randrange(1000)).encode("latin-1").hex()], ["t", "\u4e2d\u6587 \u20ac line\r\nsecond\n"]]
+        env = dict(os.environ)
+        env.update(env_extra)
+        try:
+            p = subprocess.run([sys.executable, "-c", _LOCALE_CHILD % {"src": src}, d], input=_json.dumps(msgs), env=env,
+                               stdout=subprocess.PIPE, stderr=subprocess.PIPE, text=True, timeout=120)
+            errs = _json.loads(p.stdout.strip().splitlines()[-1]) if p.returncode == 0 and p.stdout.strip() else ["child failed: " + p.stderr[-200:]]
+        except Exception as e:  # noqa
+            errs = ["child: %r" % (e,)]
+        after = listing(d) if os.path.isdir(d) else {}
+        exp = sorted(bytes.fromhex(m[1]) if m[0] == "b" else m[1].encode("utf-8") for m in msgs)
+        case = {"environment": env_extra, "messages": msgs}
+        ls.case(case)
+        if errs or sorted(after.values()) != exp:
+            ls.fail(dict(case, errors=errs[:2], files=[hexb(v[:40]) for v in sorted(after.values())][:5]),
+                    "stored with a legacy locale, the files do not contain the messages' text as UTF-8 (%d files, %d raised)"
+                    % (len(after), len(errs)), "legacy-locale/content")
+        shutil.rmtree(tmp, ignore_errors=True)
+    return ls
 
 
 def many_stores_stream(ctx, r):
